@@ -3,6 +3,7 @@ from __future__ import annotations
 
 import itertools
 
+from . import common
 from .common import Check, fmt_ints, kv
 
 THEOREMS = [
@@ -340,5 +341,17 @@ def check(ck: Check) -> None:
     ck.notes.append("observation (not part of the property): search_space_for_n_and_rounds calls "
                     "check_int_range(n, 'rounds', 1, 100000), i.e. it range-checks n twice and rounds never; rounds<=0 is "
                     "only rejected by Permutations ('base string must not be empty'), rounds>100000 is accepted")
-    ck.lean(["Props.C15"], THEOREMS)
+    modules, theorems = ["Props.C15"], list(THEOREMS)
+    # tie between source and model: lean/Gen/MapGames.lean is regenerated from the CURRENT source of map_games and
+    # Props/C15Gen.lean proves it equal to the hand-written model `GameEnc.mapGames` for all inputs
+    try:
+        from .translate import loop2lean
+        ck.gen_begin()   # released at the end of ck.lean
+        loop2lean.emit_map_games(common.REPO, common.LEAN)
+        modules.append("Props.C15Gen")
+        theorems.append("C15Gen.map_games_eq_model")
+    except Exception as e:  # noqa: BLE001 - source outside the translatable subset: the obligation cannot be regenerated
+        ck.proof_failures.append(f"translator loop2lean: map_games is not translatable, the theorem "
+                                 f"C15Gen.map_games_eq_model could not be re-checked against the source: {e!r}")
+    ck.lean(modules, theorems)
     streams(ck)
